@@ -65,6 +65,7 @@ type FnCtx struct {
 	loopOf    map[ast.Stmt]int
 	ghostObjs map[string]types.Object // ghost variables (allFull, ioBytes)
 	noMeasure []string
+	foreachCtr int // ordinal of the next X.ForEach(func literal) call met by the symbolic execution
 	uncontracted map[string]bool
 	externUsed map[string]bool
 	visitsPre map[string]int
